@@ -75,6 +75,23 @@ func addChildren(r *Identity, ids []*Identity) []*Identity {
 	return ids
 }
 
+// includeClosure adds mod, and every submodule that mod includes directly or
+// through other submodules, to mods.  Each is added once.
+func includeClosure(mod *Module, mods []*Module) []*Module {
+	for _, m := range mods {
+		if m == mod {
+			return mods
+		}
+	}
+	mods = append(mods, mod)
+	for _, in := range mod.Include {
+		if in.Module != nil {
+			mods = includeClosure(in.Module, mods)
+		}
+	}
+	return mods
+}
+
 // findIdentityBase returns the resolved identity that is corresponds to the
 // baseStr string in the context of the module/submodule mod.
 func (mod *Module) findIdentityBase(baseStr string) (*resolvedIdentity, []error) {
@@ -130,20 +147,14 @@ func (ms *Modules) resolveIdentities() []error {
 	// we can look them up based on the 'real' prefix of the module and the
 	// name of the identity.
 	for _, mod := range ms.Modules {
-		for _, i := range mod.Identities() {
-			keyName, r := newResolvedIdentity(mod, i)
-			ms.typeDict.identities.dict[keyName] = *r
-		}
-
-		// Hoist up all identities in our included submodules.
+		// Register the identities of the module and hoist up all
+		// identities in our included submodules, also of those that
+		// are included by another submodule.
 		// We could just do a range on ms.SubModules, but that
 		// might process a submodule that no module included.
-		for _, in := range mod.Include {
-			if in.Module == nil {
-				continue
-			}
-			for _, i := range in.Module.Identities() {
-				keyName, r := newResolvedIdentity(in.Module, i)
+		for _, m := range includeClosure(mod, nil) {
+			for _, i := range m.Identities() {
+				keyName, r := newResolvedIdentity(m, i)
 				ms.typeDict.identities.dict[keyName] = *r
 			}
 		}
